@@ -543,6 +543,16 @@ func (fv *FV) contractCall(name string, call *ast.CallExpr, cx *Cx) (TV, bool) {
 		x := fv.expr(call.Args[0], cx)
 		i := fv.expr(call.Args[1], cx)
 		return TV{T: sel(sx("str_runes", x.T), i.T), Ty: tInt, S: SInt}, true
+	case "strSub":
+		// strSub(s, lo, hi): the Go substring s[lo:hi]
+		x := fv.expr(call.Args[0], cx)
+		lo := fv.expr(call.Args[1], cx)
+		hi := fv.expr(call.Args[2], cx)
+		return TV{T: sx("str_sub", x.T, lo.T, hi.T), Ty: types.Typ[types.String], S: SStr}, true
+	case "strOfRune":
+		// strOfRune(r): the string that the Go conversion string(rune(r)) yields
+		x := fv.expr(call.Args[0], cx)
+		return TV{T: sx("str_of_rune", x.T), Ty: types.Typ[types.String], S: SStr}, true
 	}
 	if pd, ok := u.CS.Preds[name]; ok {
 		if len(pd.Params) != len(call.Args) {
